@@ -63,6 +63,10 @@ fn real_main() -> i32 {
                 println!("replay passed: property={} case={}", id, path.display());
                 0
             }
+            Err(v) if v.message.starts_with("HARNESS:") => {
+                eprintln!("{}", v.message);
+                2
+            }
             Err(v) => {
                 println!("{}", v.message);
                 println!("VIOLATION property={} replay={}", id, path.display());
@@ -108,6 +112,12 @@ fn real_main() -> i32 {
                 st.discarded += 1;
                 st.class(&v.message);
                 continue;
+            }
+            if v.message.starts_with("HARNESS:") {
+                // the harness could not judge the case: inconclusive, never a violation
+                eprintln!("{}", v.message);
+                eprintln!("case: {}", v.case);
+                return 2;
             }
             // a regression of a *known* finding is reported as such
             if !v.signature.is_empty() {
